@@ -43,11 +43,12 @@ VARIABLES pc,         \* per transaction program counter
           writeCh,         \* sequence of txn ids (requests) in channel order
           batch,           \* sequence of txn ids the writer is applying
           mem,             \* memtable: set of [k, ts]
-          allCommits,      \* ghost: every successful commit [ts, keys, t] (never pruned)
-          result           \* per txn: "none" | "ok" | "conflict"
+          allCommits,      \* ghost: every stamped commit [ts, keys, t] (never pruned)
+          rejected,        \* ghost: timestamps whose request sendToWriteCh refused (ErrBlockedWrites, ErrTxnTooBig)
+          result           \* per txn: "none" | "ok" | "conflict" | "rejected"
 
 vars == <<pc, readTs, cts, nextTs, committedTxns, lastCleanup, txnBegun, txnDone, txnDoneUntil,
-          rdBegun, rdDone, rdDoneUntil, lockHolder, writeCh, batch, mem, allCommits, result>>
+          rdBegun, rdDone, rdDoneUntil, lockHolder, writeCh, batch, mem, allCommits, rejected, result>>
 
 TsRange == 0..(MaxTs + 1)
 
@@ -61,7 +62,7 @@ Init ==
     /\ lockHolder = 0
     /\ writeCh = <<>> /\ batch = <<>>
     /\ mem = {}
-    /\ allCommits = {}
+    /\ allCommits = {} /\ rejected = {}
     /\ result = [t \in Txns |-> "none"]
 
 \* ---------------------------------------------------------------- watermarks (abstract)
@@ -79,12 +80,12 @@ AdvanceTxnMark ==
     /\ txnDoneUntil < TxnBound
     /\ \E d \in (txnDoneUntil + 1)..TxnBound : txnDoneUntil' = d
     /\ UNCHANGED <<pc, readTs, cts, nextTs, committedTxns, lastCleanup, txnBegun, txnDone,
-                   rdBegun, rdDone, rdDoneUntil, lockHolder, writeCh, batch, mem, allCommits, result>>
+                   rdBegun, rdDone, rdDoneUntil, lockHolder, writeCh, batch, mem, allCommits, rejected, result>>
 AdvanceReadMark ==
     /\ rdDoneUntil < RdBound
     /\ \E d \in (rdDoneUntil + 1)..RdBound : rdDoneUntil' = d
     /\ UNCHANGED <<pc, readTs, cts, nextTs, committedTxns, lastCleanup, txnBegun, txnDone, txnDoneUntil,
-                   rdBegun, rdDone, lockHolder, writeCh, batch, mem, allCommits, result>>
+                   rdBegun, rdDone, lockHolder, writeCh, batch, mem, allCommits, rejected, result>>
 
 \* ---------------------------------------------------------------- transactions
 ReadTsAlloc(t) ==
@@ -93,14 +94,14 @@ ReadTsAlloc(t) ==
     /\ rdBegun' = [rdBegun EXCEPT ![nextTs - 1] = @ + 1]
     /\ pc' = [pc EXCEPT ![t] = "waiting"]
     /\ UNCHANGED <<cts, nextTs, committedTxns, lastCleanup, txnBegun, txnDone, txnDoneUntil, rdDone,
-                   rdDoneUntil, lockHolder, writeCh, batch, mem, allCommits, result>>
+                   rdDoneUntil, lockHolder, writeCh, batch, mem, allCommits, rejected, result>>
 
 ReaderReady(t) ==
     /\ pc[t] = "waiting"
     /\ txnDoneUntil >= readTs[t]
     /\ pc' = [pc EXCEPT ![t] = "active"]
     /\ UNCHANGED <<readTs, cts, nextTs, committedTxns, lastCleanup, txnBegun, txnDone, txnDoneUntil,
-                   rdBegun, rdDone, rdDoneUntil, lockHolder, writeCh, batch, mem, allCommits, result>>
+                   rdBegun, rdDone, rdDoneUntil, lockHolder, writeCh, batch, mem, allCommits, rejected, result>>
 
 \* read-only transactions (and update transactions without writes) just end
 Discard(t) ==
@@ -109,7 +110,7 @@ Discard(t) ==
     /\ rdDone' = [rdDone EXCEPT ![readTs[t]] = @ + 1]
     /\ pc' = [pc EXCEPT ![t] = "finished"]
     /\ UNCHANGED <<readTs, cts, nextTs, committedTxns, lastCleanup, txnBegun, txnDone, txnDoneUntil,
-                   rdBegun, rdDoneUntil, lockHolder, writeCh, batch, mem, allCommits, result>>
+                   rdBegun, rdDoneUntil, lockHolder, writeCh, batch, mem, allCommits, rejected, result>>
 
 StartCommit(t) ==
     /\ pc[t] = "active" /\ Prog[t].upd /\ Prog[t].writes # {}
@@ -117,7 +118,7 @@ StartCommit(t) ==
     /\ lockHolder' = t
     /\ pc' = [pc EXCEPT ![t] = "locked"]
     /\ UNCHANGED <<readTs, cts, nextTs, committedTxns, lastCleanup, txnBegun, txnDone, txnDoneUntil,
-                   rdBegun, rdDone, rdDoneUntil, writeCh, batch, mem, allCommits, result>>
+                   rdBegun, rdDone, rdDoneUntil, writeCh, batch, mem, allCommits, rejected, result>>
 
 \* oracle.hasConflict on the (possibly pruned) committedTxns
 HasConflict(t) == \E c \in committedTxns : c.ts > readTs[t] /\ c.keys \cap Prog[t].reads # {}
@@ -144,7 +145,7 @@ NewCommitTs(t) ==
             /\ allCommits' = allCommits \cup {[ts |-> nextTs, keys |-> Prog[t].writes, t |-> t]}
             /\ pc' = [pc EXCEPT ![t] = "stamped"]
             /\ UNCHANGED <<result, lockHolder>>
-    /\ UNCHANGED <<readTs, txnDone, txnDoneUntil, rdBegun, rdDoneUntil, writeCh, batch, mem>>
+    /\ UNCHANGED <<readTs, txnDone, txnDoneUntil, rdBegun, rdDoneUntil, writeCh, batch, mem, rejected>>
 
 \* a rejected transaction is discarded (Commit's deferred Discard -> doneRead)
 DiscardRejected(t) ==
@@ -152,7 +153,7 @@ DiscardRejected(t) ==
     /\ rdDone' = [rdDone EXCEPT ![readTs[t]] = @ + 1]
     /\ pc' = [pc EXCEPT ![t] = "finished"]
     /\ UNCHANGED <<readTs, cts, nextTs, committedTxns, lastCleanup, txnBegun, txnDone, txnDoneUntil,
-                   rdBegun, rdDoneUntil, lockHolder, writeCh, batch, mem, allCommits, result>>
+                   rdBegun, rdDoneUntil, lockHolder, writeCh, batch, mem, allCommits, rejected, result>>
 
 Enqueue(t) ==
     /\ pc[t] = "stamped"
@@ -160,7 +161,20 @@ Enqueue(t) ==
     /\ lockHolder' = 0
     /\ pc' = [pc EXCEPT ![t] = "queued"]
     /\ UNCHANGED <<readTs, cts, nextTs, committedTxns, lastCleanup, txnBegun, txnDone, txnDoneUntil,
-                   rdBegun, rdDone, rdDoneUntil, batch, mem, allCommits, result>>
+                   rdBegun, rdDone, rdDoneUntil, batch, mem, allCommits, rejected, result>>
+
+\* sendToWriteCh refuses the request (writes are blocked by a drop or by Close, or the request is
+\* too big): commitAndSend calls doneCommit at once and Commit returns the error.  The entry that
+\* newCommitTs appended to committedTxns stays there.
+EnqueueRejected(t) ==
+    /\ pc[t] = "stamped"
+    /\ txnDone' = txnDone \cup {cts[t]}
+    /\ rejected' = rejected \cup {cts[t]}
+    /\ lockHolder' = 0
+    /\ result' = [result EXCEPT ![t] = "rejected"]
+    /\ pc' = [pc EXCEPT ![t] = "finished"]
+    /\ UNCHANGED <<readTs, cts, nextTs, committedTxns, lastCleanup, txnBegun, txnDoneUntil,
+                   rdBegun, rdDone, rdDoneUntil, writeCh, batch, mem, allCommits>>
 
 \* ---------------------------------------------------------------- the writer goroutine
 WriterTake ==
@@ -168,7 +182,7 @@ WriterTake ==
     /\ batch' = writeCh
     /\ writeCh' = <<>>
     /\ UNCHANGED <<pc, readTs, cts, nextTs, committedTxns, lastCleanup, txnBegun, txnDone, txnDoneUntil,
-                   rdBegun, rdDone, rdDoneUntil, lockHolder, mem, allCommits, result>>
+                   rdBegun, rdDone, rdDoneUntil, lockHolder, mem, allCommits, rejected, result>>
 
 Entries(t) == {[k |-> k, ts |-> cts[t]] : k \in Prog[t].writes}
 \* requests are applied in batch order, entries of one request in some order
@@ -180,14 +194,14 @@ MemPut ==
     /\ batch # <<>> /\ Unapplied
     /\ \E e \in Entries(batch[CurReq]) \ mem : mem' = mem \cup {e}
     /\ UNCHANGED <<pc, readTs, cts, nextTs, committedTxns, lastCleanup, txnBegun, txnDone, txnDoneUntil,
-                   rdBegun, rdDone, rdDoneUntil, lockHolder, writeCh, batch, allCommits, result>>
+                   rdBegun, rdDone, rdDoneUntil, lockHolder, writeCh, batch, allCommits, rejected, result>>
 
 BatchDone ==
     /\ batch # <<>> /\ ~Unapplied
     /\ pc' = [t \in Txns |-> IF \E i \in 1..Len(batch) : batch[i] = t THEN "applied" ELSE pc[t]]
     /\ batch' = <<>>
     /\ UNCHANGED <<readTs, cts, nextTs, committedTxns, lastCleanup, txnBegun, txnDone, txnDoneUntil,
-                   rdBegun, rdDone, rdDoneUntil, lockHolder, writeCh, mem, allCommits, result>>
+                   rdBegun, rdDone, rdDoneUntil, lockHolder, writeCh, mem, allCommits, rejected, result>>
 
 DoneCommit(t) ==
     /\ pc[t] = "applied"
@@ -195,11 +209,11 @@ DoneCommit(t) ==
     /\ result' = [result EXCEPT ![t] = "ok"]
     /\ pc' = [pc EXCEPT ![t] = "finished"]
     /\ UNCHANGED <<readTs, cts, nextTs, committedTxns, lastCleanup, txnBegun, txnDoneUntil,
-                   rdBegun, rdDone, rdDoneUntil, lockHolder, writeCh, batch, mem, allCommits>>
+                   rdBegun, rdDone, rdDoneUntil, lockHolder, writeCh, batch, mem, allCommits, rejected>>
 
 Next ==
     \/ \E t \in Txns : ReadTsAlloc(t) \/ ReaderReady(t) \/ Discard(t) \/ StartCommit(t)
-                       \/ NewCommitTs(t) \/ DiscardRejected(t) \/ Enqueue(t) \/ DoneCommit(t)
+                       \/ NewCommitTs(t) \/ DiscardRejected(t) \/ Enqueue(t) \/ EnqueueRejected(t) \/ DoneCommit(t)
     \/ WriterTake \/ MemPut \/ BatchDone
     \/ AdvanceTxnMark \/ AdvanceReadMark
 
@@ -216,7 +230,8 @@ FairSpec == Spec /\ Fairness
 \* in the memtable.
 NoReaderBeforeApply ==
     \A t \in Txns : pc[t] \in {"active", "locked"} =>
-        \A c \in allCommits : c.ts <= readTs[t] => {[k |-> k, ts |-> c.ts] : k \in c.keys} \subseteq mem
+        \A c \in allCommits : (c.ts <= readTs[t] /\ c.ts \notin rejected) =>
+                                {[k |-> k, ts |-> c.ts] : k \in c.keys} \subseteq mem
 
 \* C03: requests reach the write channel in commit-timestamp order
 RECURSIVE Increasing(_)
